@@ -76,7 +76,12 @@ def new_run():
         "index: none / Index / MultiIndex of 2-3 levels with coerce on the "
         "MultiIndex, on every level, on some levels or nowhere; optional "
         "dataframe-wide dtype; custom checks also carry raise_warning=True / "
-        "groups= (present and absent group keys); every fault point is run "
+        "groups= (present and absent group keys); drop_invalid_rows=True on "
+        "the schema (20 %) and / or on one to three Columns (25 %, also the "
+        "stand-alone Column and the SeriesSchema; such a component runs its "
+        "callbacks once to drop rows and again on the remaining rows, so a "
+        "check has several invocations per call and the k-th may fall into "
+        "either pass); every fault point is run "
         "twice: (1) one of 9 exception classes, drawn per case, made with one "
         "message argument; (2) one of 16 classes and one of 19 other shapes "
         "of exception object, drawn per fault point: no argument at all "
@@ -118,8 +123,15 @@ def new_run():
          "(verified: the kind of the k-th invocation is the same in the "
          "counting run and in the fault run)",
          "pandas and polars backends only; frames <= 6 rows x <= 7 columns",
-         "a raising check under drop_invalid_rows=True that returns a frame "
-         "is not judged (nothing documented about it)",
+         "drop_invalid_rows=True (on the schema or on a Column) does not "
+         "change what a *raising* check is: an exception is no verdict about "
+         "rows, there is nothing to drop in its place, so validate must "
+         "still raise SchemaErrors naming CHECK_ERROR - whichever of the "
+         "passes a row-dropping component makes over its data the raising "
+         "invocation belongs to (pandas does so on purpose: "
+         "can_drop_invalid_rows); returning a frame is a swallowed check. "
+         "Not judged there: the error of a validate call nested in the "
+         "check (it names rows of its own, which may be dropped)",
          "not judged: pandera.errors.BackendNotFoundError for a non-dataframe "
          "argument (the repository's tests accept it beside TypeError); the "
          "deliberate IndexError of get_regex_columns when a regex column name "
@@ -290,6 +302,8 @@ K_INDEX_COERCE = "index-component-coerce-override-written-into-schema"
 K_COMPONENT_OVERRIDE = "column-component-dtype-or-coerce-override-written-into-schema"
 K_SHARED_BLOCKS = "pandas-object-validated-on-copy-sharing-memory-with-callers-data"
 K_HANDLER = "check-error-handler-fails-on-the-shape-of-the-users-exception"
+K_COL_DROP_PARSER = "pandas-column-drop-invalid-rows-with-parsers-frame-replaced-by-parsed-column"
+K_PL_DROP_SWALLOW = "polars-drop-invalid-rows-raising-check-swallowed"
 
 
 def _fields(d):
@@ -493,6 +507,15 @@ def classify_leak(d, o):
             and any(f.get("drop_invalid_rows") for f in fields)
             and "backends/pandas/components.py:validate" in fr):
         return K_COL_DROP
+    if (pandas and sp["kind"] == "frame"
+            and any(f.get("drop_invalid_rows") and f.get("parsers") for f in fields)
+            and ((name == "AssertionError" and last ==
+                  "backends/pandas/container.py:run_schema_component_checks")
+                 or (name == "KeyError"
+                     and last == "backends/pandas/components.py:validate"))):
+        # the row-dropping pass of a Column with parsers hands back the parsed
+        # column; ColumnBackend.validate goes on with it in place of the frame
+        return K_COL_DROP_PARSER
     if (pandas and sp.get("dtype") is not None
             and "engines/utils.py:numpy_pandas_coerce_failure_cases" in fr):
         return K_FRAME_COERCE_FC
@@ -576,6 +599,37 @@ def classify_state(d, o):
                for p in paths) and (
                 d["spec"].get("dtype") is not None or d["spec"].get("coerce")):
             return K_COMPONENT_OVERRIDE
+    return None
+
+
+def drop_level(d, fired_meta):
+    """Where drop_invalid_rows=True is in play for the check a fault fired in:
+    on the check's own Column ('column'), on another component only
+    ('other-column'), on the DataFrameSchema / SeriesSchema ('schema'), on
+    both ('schema+column'); '' when nowhere."""
+    sp = d["spec"]
+    top = bool(sp.get("drop_invalid_rows")) or (
+        sp["kind"] == "series" and bool(sp["field"].get("drop_invalid_rows")))
+    if d["call"].get("component") is not None:
+        top = False          # the DataFrameSchema is not part of the call
+    own = bool(fired_meta.get("col_drop")) and sp["kind"] == "frame"
+    if top:
+        return "schema+column" if own else "schema"
+    if own:
+        return "column"
+    return "other-column" if any_drop(d) and sp["kind"] == "frame" \
+        and d["call"].get("component") is None else ""
+
+
+def classify_swallowed(d, o, drop):
+    """A check raised on a component / schema with drop_invalid_rows=True and
+    validate returned, or raised SchemaErrors that do not mention it."""
+    if d["backend"] == "polars" and drop in ("schema", "column", "schema+column"):
+        # PolarsSchemaBackend.drop_invalid_rows builds the row filter from
+        # the check_output of every collected error; a CHECK_ERROR has none
+        # (None), contributes nothing to the filter and is dropped with the
+        # error handler
+        return K_PL_DROP_SWALLOW
     return None
 
 
@@ -802,11 +856,11 @@ def fault_run(run, d, f0, n, k, base, shape, backend, with_sample=False):
                      "reasons": o.reasons[:4]} if with_sample else None)
     if not fired:
         run.count("B:fault_not_reached")
-        return
+        return o
     kind, exc = f.fired
     if k <= len(f0.log) and f0.log[k - 1] != kind:
         run.count("undecided:callback-order-not-reproducible")
-        return
+        return o
     if first:
         run.count("fault_points_enumerated")
         run.count(f"fault_points:{kind}")
@@ -847,8 +901,16 @@ def fault_run(run, d, f0, n, k, base, shape, backend, with_sample=False):
     warn_only = bool(f.fired_meta.get("raise_warning"))
     if not first and not exc.args and kind in CF.CHECK_KINDS:
         run.count(f"fault_without_args:check@{where}:{backend}")
+    drop = drop_level(d, f.fired_meta)
     if in_channel and kind in CF.CHECK_KINDS:
         run.count("check_fault_evaluated")
+        if drop:
+            run.count(f"check_fault_evaluated:drop_invalid_rows:{drop}:{backend}")
+            run.count(f"check_fault_outcome:drop_invalid_rows:{drop}:{backend}:"
+                      f"{o.kind}")
+            if not nested:
+                run.count("check_fault_judged:drop_invalid_rows:"
+                          f"{drop}:{backend}")
         run.count(f"check_fault_evaluated@{where}:{backend}")
         if not first:
             run.count("check_fault_evaluated:" + shape_class(shape))
@@ -871,9 +933,17 @@ def fault_run(run, d, f0, n, k, base, shape, backend, with_sample=False):
             elif nested and o.exc is exc:
                 # the SchemaErrors of the nested lazy validate itself
                 run.count("undecided:nested-validate-error-propagated-as-is")
+            elif nested and drop:
+                # the nested validate's error names rows of its own; a
+                # row-dropping component may consume it by dropping rows
+                # while other components' errors are raised
+                run.count("undecided:drop_invalid_rows-nested-validate-error-"
+                          "among-other-errors")
             else:
                 run.violation("raising-check-not-reported-as-failed-check",
-                              witness(d, o) | extra, None)
+                              witness(d, o) | extra
+                              | ({"drop_invalid_rows": drop} if drop else {}),
+                              classify_swallowed(d, o, drop) if drop else None)
         elif o.kind == "SchemaError":
             if len(o.reasons) == 1 and o.reasons[0] in failed_check \
                     and o.exc is not exc:
@@ -887,16 +957,26 @@ def fault_run(run, d, f0, n, k, base, shape, backend, with_sample=False):
                 # eager mode raises the first failure of the component
                 run.count("undecided:eager-raised-an-earlier-failure")
         elif o.kind == "ok":
-            if any_drop(d):
-                run.count("undecided:drop_invalid_rows-raising-check-returned")
+            if drop and nested:
+                # the SchemaError(s) of the nested validate carries row-shaped
+                # failure cases of its own: the rows it names may be dropped
+                run.count("undecided:drop_invalid_rows-nested-validate-error-"
+                          "returned")
             elif warn_only and o.schema_warnings:
                 # (a SchemaWarning was emitted during the call; it is not
                 # attributed to this check)
                 run.count("undecided:raise_warning-check-raised-and-validate-"
                           "returned-with-a-SchemaWarning")
             else:
+                # also under drop_invalid_rows: an exception is not a verdict
+                # about rows, there is nothing to drop in its place; a frame
+                # returned as if the check had never been called is a
+                # swallowed check, whichever of the (several) passes over
+                # the data the raising invocation belonged to
                 run.violation("raising-check-swallowed",
-                              witness(d, o) | extra, None)
+                              witness(d, o) | extra
+                              | ({"drop_invalid_rows": drop} if drop else {}),
+                              classify_swallowed(d, o, drop) if drop else None)
         else:
             run.count("undecided:check-fault-usage-error")
     elif in_channel and kind in CF.REPORTED_KINDS:
@@ -929,6 +1009,7 @@ def fault_run(run, d, f0, n, k, base, shape, backend, with_sample=False):
                          "standalone-column")):
             run.count("state_evaluated:B:" + t)
     state(run, d, o, "B", extra, mutations=f.mutations)
+    return o
 
 
 # ------------------------------------------------------------------ driver
@@ -993,6 +1074,19 @@ QUICK_FLOORS = {
     "state_evaluated:B:frame-dtype": 50,
     # Column(...).validate(dataframe): a component used as a schema
     "state_evaluated:B:standalone-column": 22,
+    # raising checks under drop_invalid_rows, by where the option sits
+    # relative to the check the fault fired in (nested-validate shapes are
+    # evaluated but not judged there)
+    "B:tag:drop_invalid_rows:column": 34,
+    "B:tag:drop_invalid_rows:column-with-user-check": 27,
+    "check_fault_judged:drop_invalid_rows:column:pandas": 85,
+    "check_fault_judged:drop_invalid_rows:column:polars": 33,
+    "check_fault_judged:drop_invalid_rows:schema:pandas": 120,
+    "check_fault_judged:drop_invalid_rows:schema:polars": 50,
+    "check_fault_judged:drop_invalid_rows:schema+column:pandas": 15,
+    "check_fault_judged:drop_invalid_rows:schema+column:polars": 5,
+    "check_fault_judged:drop_invalid_rows:other-column:pandas": 55,
+    "check_fault_judged:drop_invalid_rows:other-column:polars": 22,
     # every fault point a second time with another shape of exception object
     "fault_points_second_shape": 830,
     "other_fault_evaluated:second-shape": 260,
@@ -1059,13 +1153,11 @@ def replay(path):
     d = w["descriptor"]
     r = Run(PID, "fault_enumeration", "replay")
     if "k" in w:
-        f_ = CF.Faults(target=w["k"], base=w.get("fault_base", "Exception"),
-                       shape=w.get("fault_shape", "message"),
-                       backend=d["backend"])
-        o = execute(d, f_)
-        exc, kind = (f_.fired[1], f_.fired[0]) if f_.fired else (None, None)
-        if channel(r, d, o, "B", injected=exc, inj_kind=kind):
-            state(r, d, o, "B", mutations=f_.mutations)
+        # every relation of a fault run (channel, raising check reported as
+        # a failed check, state afterwards)
+        o = fault_run(r, d, CF.Faults(), w.get("N", 0), w["k"],
+                      w.get("fault_base", "Exception"),
+                      w.get("fault_shape", "message"), d["backend"])
     else:
         o = execute(d, CF.Faults())
         channel(r, d, o, "A")
